@@ -371,7 +371,8 @@ class RectPartition(object):
         csizes : tuple of `numpy.ndarray`'s
             The cell sizes per axis. The length of the vectors is the
             same as the corresponding ``grid.coord_vectors``.
-            For axes with 1 grid point, cell size is set to 0.0.
+            For axes with 1 grid point, the single cell is the whole
+            interval, i.e., its size is the extent in that axis.
 
         Examples
         --------
@@ -392,7 +393,7 @@ class RectPartition(object):
         csizes = []
         for ax, cvec in enumerate(self.grid.coord_vectors):
             if len(cvec) == 1:
-                csizes.append(np.array([0.0]))
+                csizes.append(np.array([self.max()[ax] - self.min()[ax]]))
             else:
                 csize = np.empty_like(cvec)
                 csize[1:-1] = (cvec[2:] - cvec[:-2]) / 2.0
@@ -861,12 +862,13 @@ class RectPartition(object):
         default_bdry_fracs = np.all(np.isclose(bdry_fracs, 0.5) |
                                     np.isclose(bdry_fracs, 1.0))
 
-        # Get default shifts of min_pt and max_pt from corresponding
-        # grid points
-        csizes_l = np.fromiter((s[0] for s in self.cell_sizes_vecs),
-                               dtype=float)
-        csizes_r = np.fromiter((s[-1] for s in self.cell_sizes_vecs),
-                               dtype=float)
+        # Get default shifts of min_pt and max_pt
+        # from corresponding grid points. Axes with 1 grid point have no
+        # default shift (`nonuniform_partition` puts both ends at the point).
+        csizes_l = np.fromiter((s[0] if len(s) > 1 else 0.0
+                                for s in self.cell_sizes_vecs), dtype=float)
+        csizes_r = np.fromiter((s[-1] if len(s) > 1 else 0.0
+                                for s in self.cell_sizes_vecs), dtype=float)
 
         shift_l = ((bdry_fracs[:, 0].astype(float).squeeze() - 0.5) *
                    csizes_l)
